@@ -825,6 +825,13 @@ func witnesses() []Case {
 			upU(x, "kubernetes.io/tls", "pairA", 0, 0), get(x), upU(x, "kubernetes.io/tls", "mismatch", 1, 1), get(x),
 			upU(x, "kubernetes.io/tls", "pairB", 2, 2), get(x), upU(x, "kubernetes.io/tls", "pairC", 3, 3), upU(x, "kubernetes.io/tls", "pairA", 4, 4), del(x),
 			upU(x, "nginx.org/jwk", "jwk", 5, 5), upU(x, "nginx.org/jwk", "jwk", 6, 6), get(x), upU(x, "nginx.org/jwk", "nokey", 7, 7), upU(x, "nginx.org/jwk", "jwk", 8, 8)}},
+		{Class: "witness-suffix-tmp", Ops: []Op{
+			up(x, "kubernetes.io/tls", "pairA", 0), up(keyT{"default", "x.tmp"}, "kubernetes.io/tls", "pairB", 0),
+			up(keyT{"default", "x.conf"}, "nginx.org/htpasswd", "ok", 1), up(keyT{"default", "x-"}, "nginx.org/jwk", "jwk", 2),
+			up(keyT{"default", "x~"}, "nginx.org/jwk", "jwk", 3),
+			get(keyT{"default", "x.tmp"}), get(keyT{"default", "x.conf"}), get(keyT{"default", "x-"}), get(keyT{"default", "x~"}), get(x),
+			up(x, "kubernetes.io/tls", "pairC", 4), get(keyT{"default", "x.tmp"}), up(x, "kubernetes.io/tls", "mismatch", 5),
+			up(keyT{"default", "x.tmp"}, "kubernetes.io/tls", "pairA", 6), del(keyT{"default", "x-"}), get(x)}},
 		{Class: "witness-force", Ops: []Op{
 			up(x, "nginx.org/jwk", "nokey", 0), force(x, "jwt"), get(x), up(x, "nginx.org/jwk", "jwk", 1), get(x),
 			up(x, "nginx.org/jwk", "nokey", 2), get(x), up(x, "nginx.org/jwk", "jwk", 3), del(x), force(x, "basic"),
@@ -849,7 +856,7 @@ func pickPayload(r *vh.Rng, typ string, wantValid bool) string {
 }
 
 func genHistory(r *vh.Rng, id int) Case {
-	classes := []string{"clean", "clean", "clean", "force", "force", "ca", "collide", "casuffix", "retype", "mixed", "xns"}
+	classes := []string{"clean", "clean", "clean", "force", "force", "ca", "collide", "casuffix", "retype", "mixed", "xns", "suffix"}
 	class := classes[r.Intn(len(classes))]
 	// the keys of this history and the type each starts with
 	var keys []keyT
@@ -861,6 +868,22 @@ func genHistory(r *vh.Rng, id int) Case {
 		}
 		if r.Chance(3, 4) {
 			keys[0], keys[1] = keyT{"a-b", "c"}, keyT{"a", "b-c"}
+		}
+	case "suffix": // names that are each other's prefix: x, x.tmp, x.conf, x-, x~ ... in one namespace
+		nsx := vh.Pick(r, cleanNS)
+		base := vh.Pick(r, []string{"x", "s1", "web.tls"})
+		sfx := []string{"", ".tmp", ".conf", "-", "~", ".tmp.tmp", ".bak", ".lock", ".new", "0"}
+		keys = append(keys, keyT{nsx, base})
+		seenS := map[string]bool{"": true}
+		for len(keys) < nk+1 {
+			x := vh.Pick(r, sfx)
+			if !seenS[x] {
+				seenS[x] = true
+				keys = append(keys, keyT{nsx, base + x})
+			}
+		}
+		if r.Chance(2, 3) {
+			keys[1] = keyT{nsx, base + ".tmp"}
 		}
 	case "xns": // Secrets of the same name in several namespaces
 		nm := vh.Pick(r, cleanNames)
@@ -896,6 +919,8 @@ func genHistory(r *vh.Rng, id int) Case {
 			types[i] = vh.Pick(r, fileTypes)
 		case class == "xns":
 			types[i] = vh.Pick(r, []string{"nginx.org/htpasswd", "nginx.org/jwk"})
+		case class == "suffix":
+			types[i] = vh.Pick(r, fileTypes)
 		default:
 			t := supportedTypes[r.Intn(len(supportedTypes))]
 			for t == "nginx.org/ca" {
